@@ -1,6 +1,6 @@
 CONSTANTS
   NDocs = 24
-  NOperators = 42
+  NOperators = 43
   MaxSite = 5
 INIT Init
 NEXT Next
